@@ -565,7 +565,7 @@ func c06Pool(c *an.Ctx) {
 			c.Check(!copied, "R2", key, in.Pos(), "the mutex is reached through a pointer or a package variable", "the mutex locked here lives inside a value the function received by value (a copy made for this call): every caller locks its own copy, so the critical section excludes nobody and the data it was meant to protect is written concurrently")
 		})
 	}
-	c.MinCount("R2", "lock acquisitions in the module", nLk, 4)
+	c.MinCount("R2", "lock acquisitions in the module", nLk, 2)
 }
 
 // c06DerivedAppends: `append(x.f, ...)` whose result goes anywhere but back into x.f builds a *new* object
